@@ -73,6 +73,10 @@ func (h accountsResourceHandler) ResolveFilter(opts common.ResourceQuery[any], o
 		}
 		return fmt.Sprintf("%s %s ?", property, common.ConvertOperatorToSQL(operator)), []any{value}, nil
 	case balanceRegex.MatchString(property) || property == "balance":
+		if operator == queries.OperatorExists {
+			// balance is a map-typed field, so validation lets $exists through, but it has no SQL form here
+			return "", nil, common.NewErrInvalidQuery("operator '%s' is not allowed for property '%s'", operator, property)
+		}
 
 		selectBalance := h.store.newScopedSelect().
 			Where("accounts_address = dataset.address")
